@@ -73,10 +73,10 @@ def texts(draw, enc):
 @st.composite
 def api_cases(draw):
     enc = draw(st.sampled_from(ENCODINGS))
-    text = draw(texts(enc))
     func = draw(st.sampled_from(['parse', 'parsestream', 'split', 'format']))
     opts = draw(O.valid_options()) if func == 'format' else {}
     form = draw(st.sampled_from(['bytes+encoding', 'bytes+encoding', 'utf8-bytes', 'latin1-bytes', 'stream', 'bytes-stream?'][:5]))
+    text = draw(texts(enc))          # the big structure last
     if form == 'latin1-bytes':
         # text that Latin-1 can encode and that is NOT valid UTF-8
         text = text.encode('latin-1', 'replace').decode('latin-1') + draw(st.sampled_from([" -- \xe9", " /*\xff*/", "; select '\xe9\\n'", " '\xa0\\x'"]))
@@ -149,9 +149,6 @@ LONG = {'-k': '--keywords', '-i': '--identifiers', '-l': '--language', '-r': '--
 @st.composite
 def cli_cases(draw):
     enc = draw(st.sampled_from(ENCODINGS))
-    text = draw(texts(enc))
-    if draw(st.booleans()):
-        text = text.replace('\n', draw(st.sampled_from(['\n', '\r\n'])))
     opts = {}
     names = sorted(FLAGS)
     bits = draw(st.integers(0, (1 << len(names)) - 1))
@@ -170,8 +167,12 @@ def cli_cases(draw):
     if enc not in ('utf-8', 'utf-16'):
         # re-casing a letter may leave a legacy code page (é -> É is not in GBK): the output would not be representable
         opts.pop('identifier_case', None)
-    return {'enc': enc, 'text': text, 'opts': opts, 'infile': draw(st.booleans()), 'outfile': draw(st.booleans()), 'long': draw(st.booleans()),
-            'explicit_enc': draw(st.booleans()) if enc == 'utf-8' else True}
+    infile, outfile, long_, explicit = draw(st.booleans()), draw(st.booleans()), draw(st.booleans()), draw(st.booleans()) if enc == 'utf-8' else True
+    crlf = draw(st.sampled_from([None, '\n', '\r\n']))
+    text = draw(texts(enc))          # the big structure last
+    if crlf:
+        text = text.replace('\n', crlf)
+    return {'enc': enc, 'text': text, 'opts': opts, 'infile': infile, 'outfile': outfile, 'long': long_, 'explicit_enc': explicit}
 
 
 class _Stdin:
